@@ -146,9 +146,29 @@ UpperOK(cs, x, hi) == \E t \in cs : t[1] = "<=" /\ t[2] = <<"v", x>> /\ Closed(t
 Guarded(vc, lo, hi, needLower) ==
   vc[1] = "imp" /\ LET cs == Conj(vc[2]) IN \A x \in Vars : (needLower => LowerOK(cs, x, lo)) /\ UpperOK(cs, x, hi)
 Taut(vc) == vc[1] = "imp" /\ vc[2] = vc[3]
-BoxCond(lo, hi, needLower) ==
-  LET bx(x) == IF needLower THEN <<"and", <<"<=", <<"n", lo>>, <<"v", x>>>>, <<"<=", <<"v", x>>, <<"n", hi>>>>>>
-               ELSE <<"<=", <<"v", x>>, <<"n", hi>>>> IN <<"and", bx("x"), bx("y")>>
+\* the box conjunct is a right-nested chain of atoms (so that printing it without brackets is faithful), a negative
+\* bound is written as unary minus applied to a literal (what the condition parser produces for "-2")
+Lit(k) == IF k < 0 THEN <<"neg", <<"n", 0 - k>>>> ELSE <<"n", k>>
+BoxAtoms(lo, hi, needLower) ==
+  LET at(x) == IF needLower THEN << <<"<=", Lit(lo), <<"v", x>>>>, <<"<=", <<"v", x>>, Lit(hi)>> >> ELSE << <<"<=", <<"v", x>>, Lit(hi)>> >>
+  IN at("x") \o at("y")
+RECURSIVE AndChain(_)
+AndChain(sq) == IF Len(sq) = 1 THEN sq[1] ELSE <<"and", sq[1], AndChain(Tail(sq))>>
+BoxCond(lo, hi, needLower) == AndChain(BoxAtoms(lo, hi, needLower))
+BoxedWith(lo, hi, needLower, a) == AndChain(BoxAtoms(lo, hi, needLower) \o <<a>>)
+
+\* meaning-preserving structural normal form, used only to skip evaluations when two conditions are the same up to
+\* it:  a != b  is  ~(a == b)  (the HOL form has no disequality);  & and | are re-associated to the right
+RECURSIVE NormB(_), FlatOp(_, _), OpChain(_, _)
+FlatOp(op, t) == IF t[1] = op THEN <<t[2]>> \o FlatOp(op, t[3]) ELSE <<t>>
+OpChain(op, sq) == IF Len(sq) = 1 THEN sq[1] ELSE <<op, sq[1], OpChain(op, Tail(sq))>>
+NormB(b) == CASE b[1] = "!=" -> <<"not", <<"==", b[2], b[3]>>>>
+              [] b[1] \in CmpTags \/ b[1] \in {"true", "false"} -> b
+              [] b[1] = "not" -> <<"not", NormB(b[2])>>
+              [] b[1] \in {"and", "or"} -> OpChain(b[1], FlatOp(b[1], NormB(b[2])) \o FlatOp(b[1], NormB(b[3])))
+              [] b[1] = "imp" -> <<b[1], NormB(b[2]), NormB(b[3])>>
+              [] b[1] = "ite" -> <<"ite", NormB(b[2]), NormB(b[3]), NormB(b[4])>>
+SameMeaning(a, b, box) == NormB(a) = NormB(b) \/ \A s \in box : EvalB(a, s) = EvalB(b, s)
 
 \* ---------------------------------------------------------------- the soundness check
 \* vcs : a sequence of conditions.  Decided: each one is guarded (holds everywhere iff on the box), a
